@@ -351,6 +351,22 @@ struct FsWorld {
             }
           }
         }
+      } else if (op.k == "slot_inflate") {
+        // a "$n" of some macro body gets an index that does not fit the word but is congruent to n modulo 2^32 / 2^64
+        std::vector<std::string> names2 = file_names(delivered);
+        std::vector<std::pair<std::string, Span>> slots;
+        for (auto &n : names2) { auto sp = split_tokens(delivered[n]); for (auto &q : sp) { const std::string &f = delivered[n]; if (q.b - q.a >= 2 && f[q.a] == '$' && isdigit((unsigned char)f[q.a + 1])) slots.push_back({n, q}); } }
+        if (slots.empty()) continue;
+        auto &sl = slots[(size_t)op.a % slots.size()];
+        std::string &f = delivered[sl.first];
+        long long k = atoll(f.substr(sl.second.a + 1, sl.second.b - sl.second.a - 1).c_str());
+        static const char *BASE[] = {"4294967296", "8589934592", "18446744073709551616", "2147483647", "99999999999999999999"};
+        std::string big;
+        size_t which = (size_t)op.b % 5;
+        if (which == 0) big = std::to_string(4294967296LL + k); else if (which == 1) big = std::to_string(8589934592LL + k);
+        else if (which == 2) { big = "1844674407370955161"; big += std::to_string(6 + k % 4); } else big = BASE[which];
+        f.replace(sl.second.a + 1, sl.second.b - sl.second.a - 1, big);
+        fired("literal_inflate");
       } else if (op.k == "raw") {
         if (auto f = pick_file(op.a)) { *f = op.s; fired("raw_corpus_input"); }
       } else if (op.k == "rename_main") {
@@ -613,12 +629,32 @@ struct FsWorld {
     std::vector<std::string> msgs;
     auto compile_once = [&](const std::map<std::string, std::string> &st) {
       req.clear(); msgs.clear();
-      set_phase(PH_COMPILE);
-      CodegenResult r = Theo::compile(st, main);
-      set_phase(PH_HARNESS);
-      for (auto &q : r.file_requests) req.insert(q);
-      for (auto &e : r.errors) msgs.push_back(e.message);
-      return r.generated_correctly;
+      WorkMonitor cm;
+      long long bytes = 200;
+      for (auto &kv : st) bytes += (long long)kv.second.size();
+      std::set<std::string> all;
+      for (auto &kv : st) all.insert(kv.first);
+      Model mm = model(all, main);
+      cm.bytes = bytes; cm.ndefs_bound = 4; cm.scan_limit = 2 * mm.tokens + 256;
+      bool ok = false;
+      {
+        HookGuard hg(&cm);
+        set_phase(PH_COMPILE);
+        try {
+          CodegenResult r = Theo::compile(st, main);
+          for (auto &q : r.file_requests) req.insert(q);
+          for (auto &e : r.errors) msgs.push_back(e.message);
+          ok = r.generated_correctly;
+        } catch (SimAbort &) {
+          set_phase(PH_HARNESS);
+          if (cm.exceeded) { ctx.check(false, "C15", "scan_terminates", std::string("compile: the ") + site_name(cm.exceeded) + " took " + std::to_string(cm.exceeded_count) + " steps, the include structure allows " + std::to_string(cm.exceeded_limit)); ctx.abort_run(); }
+          ctx.stats.inc("skipped_slow");
+          ctx.abort_run();
+        }
+        set_phase(PH_HARNESS);
+      }
+      ctx.sim_steps += cm.total();
+      return ok;
     };
     compile_once(store);
     if (req != m.requests) {
@@ -668,6 +704,8 @@ struct FsWorld {
     warm_up();
     long long budget = std::max<long long>(1, knob("budget", 1024));
     bool divergent = knob("divergent", 0) != 0;
+    bool divergent_e2e = divergent;
+    if (knob("prelude_only", 0)) divergent = false;
     std::map<std::string, std::string> files = plan.proj.files;
     std::string main = plan.proj.main;
     ctx.evs("source", files.count(main) ? files[main] : "");
@@ -729,7 +767,9 @@ struct FsWorld {
       else if (m3.exceeded) ctx.check(false, "C11", "expansion_returns", std::string("compile: the ") + site_name(m3.exceeded) + " exceeded its bound");
       else if (s.returned) {
         if (m3.cnt[Theo::verif::MACRO_PASS] > 1024) ctx.check(false, "C11", "passes_within_budget", "compile made more than 1024 passes");
-        if (divergent && s.ok) ctx.check(false, "C11", "unfinished_never_correct", "a divergent macro set compiled as a correct program");
+        if (divergent_e2e && s.ok) ctx.check(false, "C11", "unfinished_never_correct", "a divergent macro set compiled as a correct program");
+        if (divergent_e2e && !s.reached_max_passes) ctx.check(false, "C11", "unfinished_expansion_reported", "compile() of a divergent macro set does not report the too-many-substitutions error");
+        if (divergent_e2e) ctx.stats.inc("probe_divergent_through_standard_macros");
         if (m3.cnt[Theo::verif::MACRO_PASS] >= 1024 && s.ok) {
           // exhausted budget and accepted: only fine if the expansion was complete
           ctx.stats.inc("probe_budget_exhausted_end_to_end");
@@ -801,7 +841,8 @@ Op random_fault(Rng &rng, const Project &p) {
   else if (w < 72) o.k = "tok_swap";
   else if (w < 85) { o.k = "tok_insert"; o.s = INSERT_VOCAB[rng.below(N_INSERT)]; }
   else if (w < 92) { o.k = "tok_replace"; o.s = INSERT_VOCAB[rng.below(N_INSERT)]; }
-  else { o.k = "lit_inflate"; o.a = (long long)rng.below(64); o.b = rng.chance(1, 2) ? 10 : rng.range(11, 40); o.c = rng.chance(1, 2); }
+  else if (w < 98) { o.k = "lit_inflate"; o.a = (long long)rng.below(64); o.b = rng.chance(1, 2) ? 10 : rng.range(11, 40); o.c = rng.chance(1, 2); }
+  else { o.k = "slot_inflate"; o.a = (long long)rng.below(64); o.b = (long long)rng.below(5); }
   (void)p;
   return o;
 }
@@ -869,6 +910,11 @@ const MacroFam MACRO_FAMS[] = {
     {"DEFINE cnt <INT> AS x := x + $0 END DEFINE", "cnt 1 ; cnt 2 ; cnt 3 ; cnt 4 ; cnt 5 ; cnt 6 ; cnt 7 ; cnt 8", false, false},
     {"DEFINE a <P> AS $0 END DEFINE", "a x := 1", false, false},
     {"DEFINE PRIO 2 lo AS hi END DEFINE DEFINE PRIO 9 hi AS x := 1 END DEFINE", "lo ; lo ; hi", false, false},
+    // interplay with the hidden standard macros (x + c, x - c): these only diverge through compile(), where the prelude exists
+    {"DEFINE RUN __INC__ WITH <ID> , <INT> END AS $0 + $1 END DEFINE", "x := y + 1", true, false, true},
+    {"DEFINE RUN __INC__ WITH <ID> , <INT> END AS $0 + $1 END DEFINE", "x := RUN __INC__ WITH y , 1 END", true, false, true},
+    {"DEFINE RUN __DEC__ WITH <ID> , <INT> END AS $0 - $1 END DEFINE", "x := y - 2 ; z := RUN __DEC__ WITH y , 3 END", true, false, true},
+    {"DEFINE <ID> := grow AS $0 := $0 + 1 ; $0 := grow END DEFINE", "x0 := grow", true, false},
 };
 const int N_FAMS = sizeof(MACRO_FAMS) / sizeof(MACRO_FAMS[0]);
 
@@ -932,6 +978,7 @@ Plan gen_macro_plan(Rng &rng, bool thorough) {
   p.knobs["budget"] = budget;
   p.knobs["divergent"] = divergent;
   if (family && !dup && (!divergent || cheap) && rng.chance(1, 6)) p.knobs["end_to_end"] = 1;
+  if (text.find("__INC__") != std::string::npos || text.find("__DEC__") != std::string::npos) { p.knobs["end_to_end"] = rng.chance(1, 2); p.knobs["prelude_only"] = 1; }
   if (family && divergent && !cheap && !dup && rng.chance(1, 300)) p.knobs["end_to_end"] = 1;
   p.proj.files["main.theo"] = text;
   p.proj.main = "main.theo";
@@ -950,6 +997,7 @@ Plan gen_fs_plan(const std::string &prop, Rng &rng, long long sub, const std::st
     unsigned macros = rng.chance(1, 2) ? (unsigned)rng.below(16) : 0;
     p.proj = valid_project(rng, thorough, macros, false);
     Op o; o.k = "lit_inflate"; o.a = (long long)rng.below(64); o.b = rng.chance(1, 3) ? 10 : rng.range(11, 40); o.c = rng.chance(1, 2);
+    if ((macros & (MF_CALL | MF_SWAP | MF_ITE)) && rng.chance(1, 3)) { o.k = "slot_inflate"; o.b = (long long)rng.below(5); }
     p.ops.push_back(o);
     p.note = "literal inflation";
     return p;
